@@ -89,7 +89,8 @@ Definition weak_eq (a b : str) : bool :=
   let strip s := if has_prefix s (bytes "W/") then skipn 2 s else s in
   str_eqb (strip a) (strip b).
 
-Record wst := mkW { w_now : Z; w_script : script; w_store : list (str * sent); w_disk : list sx; w_forbidden : list str }.
+Record wst := mkW { w_now : Z; w_script : script; w_store : list (str * sent); w_disk : list sx; w_forbidden : list str;
+                    w_unsure : list str (* keys whose entry a cache-forbidding 304 may or may not have ended *) }.
 
 Definition cobs_status (o : sx) : Z := sx_int (sx_nth 1 (sx_nth 0 o)).
 Definition cobs_kind (o : sx) : str := sx_str (sx_nth 0 (sx_nth 0 o)).
@@ -296,9 +297,10 @@ Definition judge (p : str) (sfx : option str) (rules : list rule) (expires : lis
         if (rs_status r =? 304) then
           match ent with
           | Some e =>
-            (* a 304 whose fields forbid caching (no-store ...) ends the stored representation's life *)
+            (* a 304 whose fields forbid caching (no-store ...): whether the stored representation lives on,
+               unmerged, or is dropped is not decided by the property - the key becomes "unsure" below *)
             if must_not_cache_spec strips_auth q (mkResp (se_status e) (merge_revalidated (se_hdrs e) (rs_hdrs r)) (se_body e))
-            then filter (fun p => negb (str_eqb (fst p) key)) (w_store w)
+            then w_store w
             else store_put (w_store w) key
                            (mkSent (se_status e) (merge_revalidated (se_hdrs e) (rs_hdrs r)) (se_body e) now)
           | None => w_store w
@@ -311,6 +313,21 @@ Definition judge (p : str) (sfx : option str) (rules : list rule) (expires : lis
         else w_store w
       | None => w_store w
       end in
+  let unsure' :=
+      match lr with
+      | Some r =>
+        if (rs_status r =? 304) then
+          match ent with
+          | Some e => if must_not_cache_spec strips_auth q (mkResp (se_status e) (merge_revalidated (se_hdrs e) (rs_hdrs r)) (se_body e))
+                      then key :: w_unsure w else w_unsure w
+          | None => w_unsure w
+          end
+        else if is_storable_status (rs_status r) && negb (must_not_cache_spec strips_auth q r)
+        then filter (fun k => negb (str_eqb k key)) (w_unsure w)
+        else w_unsure w
+      | None => w_unsure w
+      end in
+  let sure := negb (existsb (str_eqb key) (w_unsure w)) in
   (* a body is forbidden in the cache from the moment a must-not-cache exchange produced it until
      a cacheable exchange produces the same bytes legitimately *)
   let forbidden' := match lr with
@@ -456,17 +473,17 @@ Definition judge (p : str) (sfx : option str) (rules : list rule) (expires : lis
            end in
   let v_done := if str_eqb (cobs_kind o) (bytes "no-response")
                 then verdict false "the request never completed (unbounded internal recursion against the origin)" else v_ok in
-  let v := if str_eqb p (bytes "C08") then first_fail [v_done; v08]
+  let v := if str_eqb p (bytes "C08") then first_fail [v_done; if sure then v08 else v_ok]
            else if str_eqb p (bytes "C07") then v07
            else if str_eqb p (bytes "C10") then first_fail [v10; v10b; v10c; v10d]
-           else if str_eqb p (bytes "C09") then first_fail [v09; v09b]
+           else if str_eqb p (bytes "C09") then first_fail [v09; if sure then v09b else v_ok]
            else if str_eqb p (bytes "C05") then first_fail [v_done; v05]
            else if str_eqb p (bytes "C15") then v15
            else if str_eqb p (bytes "C18") then v18
            else if str_eqb p (bytes "C01") then v01
            else if str_eqb p (bytes "C11") then v11
            else v_ok in
-  (v, mkW now sc' store' (cobs_disk o) forbidden').
+  (v, mkW now sc' store' (cobs_disk o) forbidden' unsure').
 
 Fixpoint walk (p : str) (sfx : option str) (rules : list rule) (expires : list (str * Z)) (w : wst) (ops : list sx) (obs : list sx) (i : nat) : sx :=
   match ops with
@@ -481,12 +498,12 @@ Fixpoint walk (p : str) (sfx : option str) (rules : list rule) (expires : list (
       | [] => v_ok
       end
     else if str_eqb kind (bytes "adv") then
-      walk p sfx rules expires (mkW (w_now w + sx_int (sx_nth 1 op)) (w_script w) (w_store w) (w_disk w) (w_forbidden w)) rest obs i
+      walk p sfx rules expires (mkW (w_now w + sx_int (sx_nth 1 op)) (w_script w) (w_store w) (w_disk w) (w_forbidden w) (w_unsure w)) rest obs i
     else if str_eqb kind (bytes "script") then
-      walk p sfx rules expires (mkW (w_now w) (replace_script (w_script w) (dec_script (sx_nth 1 op))) (w_store w) (w_disk w) (w_forbidden w)) rest obs i
+      walk p sfx rules expires (mkW (w_now w) (replace_script (w_script w) (dec_script (sx_nth 1 op))) (w_store w) (w_disk w) (w_forbidden w) (w_unsure w)) rest obs i
     else walk p sfx rules expires w rest obs i
   end.
 
 Definition mon_hist (p : str) (x o : sx) : sx :=
   let c := dec_mcfg x in
-  walk p (mc_suffix c) (mc_rules c) (mc_expires c) (mkW (sx_int (sx_nth 5 x)) [] [] [] []) (sx_list (sx_nth 6 x)) (sx_list o) 0.
+  walk p (mc_suffix c) (mc_rules c) (mc_expires c) (mkW (sx_int (sx_nth 5 x)) [] [] [] [] []) (sx_list (sx_nth 6 x)) (sx_list o) 0.
